@@ -394,8 +394,8 @@ func intersectionExact(a0, a1, b0, b1 Point) Point {
 		// those two we return the one that is lexicographically smallest.
 		x = r3.Vector{X: 10, Y: 10, Z: 10} // Greater than any valid S2Point
 
-		aNorm := Point{aNormP.Vector()}
-		bNorm := Point{bNormP.Vector()}
+		aNorm := Point{normalizableFromPrecise(aNormP).Normalize()}
+		bNorm := Point{normalizableFromPrecise(bNormP).Normalize()}
 		if OrderedCCW(b0, a0, b1, bNorm) && a0.Cmp(x) == -1 {
 			x = a0.Vector
 		}
